@@ -644,7 +644,28 @@ def run_program(src: str, kind: str, choices: List[int], observer: Callable[[Wor
             return w
         w.target = obj
         w.kind = kind
-        w.frame = getattr(obj, {"gen": "gi_frame", "coro": "cr_frame", "agen": "ag_frame"}[kind])
+        if kind == "agen_in_coro":
+            # the async generator is consumed by a coroutine: observed at its internal awaits, its frame lies BELOW the root
+            # coroutine's in the extracted stack (w.target is the root, w.origin the generator that owns w.frame)
+            agen = obj
+
+            async def _root():
+                if w.ch() == 1:
+                    async for _ in agen:
+                        pass
+                else:
+                    try:
+                        while True:
+                            await agen.asend(None)
+                    except StopAsyncIteration:
+                        pass
+
+            w.origin = agen
+            w.frame = agen.ag_frame
+            w.target = obj = _root()
+            kind = "coro"
+        else:
+            w.frame = getattr(obj, {"gen": "gi_frame", "coro": "cr_frame", "agen": "ag_frame"}[kind])
         while steps < max_steps:
             steps += 1
             try:
